@@ -34,6 +34,25 @@ def _entries(P, F, var_name_hint=None):
             s0 = astq.subscript(s1[0]) if s1 else None
             if s0 and sc(s0[1]).get("k") == "IntegerLiteral" and sc(s1[1]).get("k") == "IntegerLiteral":
                 out[(sc(s0[1])["v"], sc(s1[1])["v"])] = x["c"][1]
+    if not out:
+        # the matrix returned as one aggregate: nine scalar leaves of the returned initialiser, row by row
+        rets = [x for x in F.walk() if x.get("k") == "ReturnStmt" and x.get("c")]
+        if len(rets) == 1:
+            def leaves(n):
+                n0 = sc(n)
+                if n0 is None:
+                    return []
+                if n0.get("k") in ("InitListExpr", "CXXConstructExpr", "CXXTemporaryObjectExpr", "MaterializeTemporaryExpr", "CXXBindTemporaryExpr", "ExprWithCleanups",
+                                   "CXXFunctionalCastExpr") and "double" != (n0.get("t") or "").replace("const ", ""):
+                    res = []
+                    for c_ in (n0.get("c") or []):
+                        if c_ is not None:
+                            res += leaves(c_)
+                    return res
+                return [n0]
+            lv = leaves(rets[0]["c"][0])
+            if len(lv) == 9:
+                out = {(i // 3, i % 3): lv[i] for i in range(9)}
     return out
 
 
@@ -78,12 +97,37 @@ def quaternion_from_matrix(P, rep, Mq, rule="QUAT.cast"):
     F = P.func(NS + "quat_cast")
     M, (w, x, y, z) = Mq
     qs = (w, x, y, z)
-    ifs = [s for s in astq.stmts_of(F.body) if s.get("k") == "IfStmt"]
-    sw = [s for s in astq.stmts_of(F.body) if s.get("k") == "SwitchStmt"]
-    if len(sw) != 1:
-        rep.unknown(rule, "quat_cast: not a selection followed by one switch")
+    top = astq.stmts_of(F.body)
+    sw = [s for s in top if s.get("k") == "SwitchStmt"]
+    # the selection: top-level ifs that assign (no return inside); the dispatch: a switch, or an if / else-if chain on `index == k`
+    ifs = [s for s in top if s.get("k") == "IfStmt" and not any(y.get("k") == "ReturnStmt" for y in F.walk(s))]
+    dispatch = {}
+    disp_cond = None
+    if len(sw) == 1:
+        for lb, stmts in astq.switch_cases(sw[0]).items():
+            rets_ = [y for st in stmts for y in F.walk(st) if y.get("k") == "ReturnStmt" and y.get("c")]
+            try:
+                if rets_:
+                    dispatch[int(lb)] = rets_[0]
+            except (TypeError, ValueError):
+                pass
+        conds_ = [c for c in sw[0]["c"] if c is not None and c.get("k") not in ("CompoundStmt",)]
+        disp_cond = conds_[0] if conds_ else None
+    else:
+        for y in F.walk(F.body):
+            if y.get("k") == "IfStmt" and any(z.get("k") == "ReturnStmt" for z in F.walk(y["c"][1])):
+                c = sc(y["c"][0])
+                if c.get("k") == "BinaryOperator" and c.get("op") == "==":
+                    a_, b_ = norm.strip_casts(c["c"][0]), norm.strip_casts(c["c"][1])
+                    if a_.get("k") == "IntegerLiteral":
+                        a_, b_ = b_, a_
+                    if a_.get("k") == "DeclRefExpr" and b_.get("k") == "IntegerLiteral":
+                        rets_ = [z for z in F.walk(y["c"][1]) if z.get("k") == "ReturnStmt" and z.get("c")]
+                        dispatch[int(b_["v"])] = rets_[0]
+                        disp_cond = a_
+    if set(dispatch) < {0, 1, 2, 3} or disp_cond is None:
+        rep.unknown(rule, "quat_cast: not a selection followed by a dispatch on the index of the largest component (found cases %s)" % sorted(dispatch))
         return
-    cases = astq.switch_cases(sw[0])
     n_ok = 0
     for k in range(4):
         taken = {id(s): (i + 1 == k) for i, s in enumerate(ifs)}
@@ -102,22 +146,15 @@ def quaternion_from_matrix(P, rep, Mq, rule="QUAT.cast"):
             return None
         B = Block(P, F, choose=choose, hook=hook)
         try:
-            B.run([s for s in astq.stmts_of(F.body) if s.get("k") != "SwitchStmt"])
+            B.run([s for s in top if s.get("k") == "DeclStmt" or s in ifs or (s.get("k") in ("BinaryOperator", "CompoundAssignOperator"))])
         except AnalysisBroken as e:
             rep.unknown(rule, "quat_cast: %s" % e)
             return
-        idx = B.sym(sw[0]["c"][0]) if sw[0].get("c") else None
-        conds = [c for c in sw[0]["c"] if c is not None and c.get("k") not in ("CompoundStmt",)]
-        idx = B.sym(conds[0])
+        idx = B.sym(disp_cond)
         if idx != k:
-            rep.unknown(rule, "quat_cast: with only the %s test true the switch is entered with %s, not %d" % (["no", "first", "second", "third"][k], idx, k))
+            rep.unknown(rule, "quat_cast: with only the %s test true the dispatch sees %s, not %d" % (["no", "first", "second", "third"][k], idx, k))
             return
-        stmts = cases.get(k) or cases.get(str(k))
-        rets = [y for st in (stmts or []) for y in F.walk(st) if y.get("k") == "ReturnStmt" and y.get("c")]
-        if not rets:
-            rep.unknown(rule, "quat_cast: case %d has no return" % k)
-            return
-        val = B.sym(rets[0]["c"][0])
+        val = B.sym(dispatch[k]["c"][0])
         comps = list(val.args) if len(getattr(val, "args", ())) == 4 else None
         if comps is None:
             rep.unknown(rule, "quat_cast: case %d does not return four components (%s)" % (k, str(val)[:60]))
@@ -164,17 +201,41 @@ def slerp_unit(P, rep, rule="QUAT.slerp"):
     theta = sp.Symbol("theta", real=True)
     Xc = {c: sp.Symbol("X" + c, real=True) for c in COMPS}
     Yc = {c: sp.Symbol("Y" + c, real=True) for c in COMPS}
-    ifs = [s for s in F.walk(F.body) if s.get("k") == "IfStmt"]
-    if len(ifs) != 2:
-        rep.unknown(rule, "slerp: expected the sign test and the short-cut test, found %d if-statements" % len(ifs))
+    # the two tests of the function, found by what they compare (named bools expanded): the sign test compares with zero,
+    # the short-cut test compares with a bound just below one
+    from .guard import expand_cond
+
+    def is_zero(n):
+        n = norm.strip_casts(n)
+        return n is not None and n.get("k") in ("IntegerLiteral", "FloatingLiteral") and float(n["v"]) == 0.0
+
+    def classify(c):
+        c = sc(c)
+        if c is None or c.get("k") != "BinaryOperator" or c.get("op") not in ("<", "<=", ">", ">="):
+            return None
+        if is_zero(c["c"][0]) or is_zero(c["c"][1]):
+            return "flip"
+        return "cut"
+    atoms = {"flip": [], "cut": []}
+    for y in F.walk(F.body):
+        c = None
+        if y.get("k") == "IfStmt" or y.get("k") == "ConditionalOperator":
+            c = y["c"][0]
+        elif y.get("k") == "VarDecl" and y.get("c") and "bool" in (y.get("t") or ""):
+            c = y["c"][0]
+        if c is None:
+            continue
+        e = sc(expand_cond(P, F, c))
+        k_ = classify(e)
+        if k_ and not any(e is a_ for a_ in atoms[k_]):
+            atoms[k_].append(e)
+    texts = {k_: {norm.render(P, a_, nocast=True) for a_ in v} for k_, v in atoms.items()}
+    if len(texts["flip"]) != 1 or len(texts["cut"]) != 1:
+        rep.unknown(rule, "slerp: expected one sign test and one short-cut test, found %d and %d" % (len(texts["flip"]), len(texts["cut"])))
         return
-    # which if is the sign flip (assigns the copy of y) and which the short cut (returns in both arms)?
-    flip = [s for s in ifs if not any(y.get("k") == "ReturnStmt" for y in F.walk(s))]
-    cut = [s for s in ifs if any(y.get("k") == "ReturnStmt" for y in F.walk(s))]
-    if len(flip) != 1 or len(cut) != 1:
-        rep.unknown(rule, "slerp: sign test / short-cut test not identified")
-        return
-    flip, cut = flip[0], cut[0]
+    flip_c, cut_c = atoms["flip"][0], atoms["cut"][0]
+    # orientation of the sign test: true means `the cosine is negative`
+    flip_neg_when_true = (flip_c["op"] in ("<", "<=") and is_zero(flip_c["c"][1])) or (flip_c["op"] in (">", ">=") and is_zero(flip_c["c"][0]))
     angle_locals = {}
     for v in F.walk(F.body):
         if v.get("k") == "VarDecl" and v.get("c"):
@@ -188,10 +249,17 @@ def slerp_unit(P, rep, rule="QUAT.slerp"):
             holder = {}
 
             def choose(c, flipped=flipped, short=short):
-                if c is sc(flip["c"][0]) or c is flip["c"][0]:
-                    return flipped
-                if c is sc(cut["c"][0]) or c is cut["c"][0]:
-                    return short
+                k_ = classify(c)
+                if k_ == "flip":
+                    return flipped if flip_neg_when_true else (not flipped)
+                if k_ == "cut":
+                    # the bound is the side without a local variable; `cos > bound` / `bound < cos` mean: take the short cut
+                    c0 = sc(c)
+                    has_local = [any(z.get("k") == "DeclRefExpr" and P.d(z["r"]).get("storage") == "local" for z in F.walk(side)) for side in c0["c"][:2]]
+                    if has_local[0] == has_local[1]:
+                        return None
+                    cos_left = has_local[0]
+                    return short if (c0.get("op") in (">", ">=")) == cos_left else (not short)
                 return None
 
             def hook(n, holder=holder):
@@ -211,6 +279,7 @@ def slerp_unit(P, rep, rule="QUAT.slerp"):
                 return None
             B = Block(P, F, choose=choose, hook=hook)
             holder["B"] = B
+            B.decide_ternaries = True
             B.sym.env.update({F.params[0]: X, F.params[1]: Y, F.params[2]: a})
             rets = []
 
@@ -243,7 +312,7 @@ def slerp_unit(P, rep, rule="QUAT.slerp"):
                 return
             path = "%s, %s" % ("y negated" if flipped else "y kept", "linear short cut" if short else "spherical branch")
             # the value of cosTheta on this path, and the relation to dot(x, z)
-            cond = sc(cut["c"][0])
+            cond = cut_c
             if cond.get("k") != "BinaryOperator" or cond.get("op") not in (">", ">=", "<", "<="):
                 rep.unknown(rule, "slerp: the short-cut test is not a comparison")
                 return
@@ -285,7 +354,6 @@ def slerp_unit(P, rep, rule="QUAT.slerp"):
                     rep.unknown(rule, "slerp, %s: result %s is not a combination of x and y" % (path, str(val)[:60]))
                     return
             zsign = -1 if flipped else 1
-            cz = B.sym(flip["c"][0]["c"][0]) if False else None
             # dot(x, z) on this path must be the tested cosine
             zval = B.state.get(("var", ("v", [v["r"] for v in F.walk(F.body) if v.get("k") == "VarDecl" and "quat" in (v.get("t") or "")][0])))
             if zval is None:
@@ -293,7 +361,7 @@ def slerp_unit(P, rep, rule="QUAT.slerp"):
                 return
             dot_xz = sp.expand(X * zval).subs({X * Y: C})
             if sp.simplify(dot_xz - cosv) != 0:
-                rep.violation(rule, "slerp, %s: the tested cosine is %s but dot(x, z) = %s" % (path, cosv, dot_xz), F.nloc(cut), F.qn, norm.render(P, cut["c"][0])[:100],
+                rep.violation(rule, "slerp, %s: the tested cosine is %s but dot(x, z) = %s" % (path, cosv, dot_xz), F.nloc(cut_c), F.qn, norm.render(P, cut_c)[:100],
                               "the angle used for the weights is not the angle between the blended quaternions", key="%s|cos" % rule,
                               witness="two grain orientations more than 90 degrees apart in quaternion space")
                 continue
@@ -320,7 +388,7 @@ def slerp_unit(P, rep, rule="QUAT.slerp"):
                 tau_seen = tau
                 if not (0 <= tnum <= float(TAU_MAX)):
                     rep.violation(rule, "slerp, %s: taken when cosTheta > 1 - %s; the unnormalised result is off unit length by up to %.3g" % (path, tau, tnum / 2),
-                                  F.nloc(cut), F.qn, norm.render(P, cut["c"][0])[:100], "blended grain orientations are visibly not orthonormal (tolerance must be of rounding size, <= 1e-10)",
+                                  F.nloc(cut_c), F.qn, norm.render(P, cut_c)[:100], "blended grain orientations are visibly not orthonormal (tolerance must be of rounding size, <= 1e-10)",
                                   key="%s|tau" % rule, witness="two grain orientations a fraction of a degree apart, section fraction 0.5")
                     continue
                 n_ok += 1
